@@ -256,7 +256,8 @@ func c06Verify(res *engine.Result, pre string, pmt psi.PMT, w *c06Want, deep boo
 
 // ---- carrier ----------------------------------------------------------------------------------
 
-var c06LeadNames = []string{"pointer_field=0", "pointer+filler", "pointer+filler", "pointer+filler", "foreign-section-first", "foreign-section-first", "other-pmt-section-first", "two-large-foreign-sections-first"}
+var c06LeadNames = []string{"pointer_field=0", "pointer+filler", "pointer+filler", "pointer+filler", "foreign-section-first", "foreign-section-first", "other-pmt-section-first", "two-large-foreign-sections-first",
+	"foreign-section-of-maximal-length-first", "foreign-section-of-maximal-length-first", "empty-foreign-section-first", "empty-foreign-section-first"}
 
 // c06Payload assembles the complete payload: lead-in (pointer_field with filler, or pointer_field 0
 // and a complete foreign section), the PMT section, trailing stuffing.
@@ -272,10 +273,22 @@ func c06Payload(lead int, sec []byte, trail int) []byte {
 	case lead == 6:
 		// another complete program map section (a different program) in front of the wanted one
 		p = append(ref.Pointer(0), ref.PMTBytes(c06Decoy, false)...)
-	default:
+	case lead == 7:
 		// two foreign sections of 153 bytes each (the unit gets several hundred bytes longer than the table)
 		p = append(ref.Pointer(0), ref.OtherSection(0xC0, 141)...)
 		p = append(p, ref.OtherSection(0xC1, 141)...)
+	case lead == 8:
+		// a foreign section with section_length 1022 (larger than any program map section may be)
+		p = append(ref.Pointer(0), ref.OtherSection(0xC0, 1013)...)
+	case lead == 9:
+		// ... and with the largest value the 10-bit field holds, 1023
+		p = append(ref.Pointer(0), ref.OtherSection(0xC1, 1014)...)
+	case lead == 10:
+		// a present but empty short-form section: table_id, section_length 0
+		p = append(ref.Pointer(0), 0x42, 0x30, 0x00)
+	default:
+		// two empty sections behind a pointer_field of 2
+		p = append(ref.Pointer(2), 0x42, 0x30, 0x00, 0x43, 0x30, 0x00)
 	}
 	p = append(p, sec...)
 	for i := 0; i < trail; i++ {
@@ -1106,6 +1119,13 @@ func c06GenBig(r *engine.Run, emit func(c06BigCase)) {
 			}
 		}
 	}
+	// foreign sections of the largest lengths, and empty ones, in front of the table
+	for _, sl := range []int{150, 400} {
+		for _, lead := range []int{8, 9, 10, 11} {
+			emit(c06BigCase{sl, 0, lead, false})
+			emit(c06BigCase{sl, 1, lead, true})
+		}
+	}
 	// one stream with 125..129, 254..258, 300 and ~496 tiny descriptors
 	for _, n := range []int{125, 127, 128, 129, 254, 255, 256, 257, 258, 300, 496} {
 		for _, lead := range []int{0, 7} {
@@ -1241,7 +1261,7 @@ func init() {
 			},
 			&engine.Enum[c06BigCase]{
 				Name: "large-sections",
-				Rule: "case = section padded to an exact section_length in {150,180,181,184,400,1021} (thorough: 16 lengths around the one-, two- and three-packet limits up to the maximal 1021) x 2 content variants (plus a third with as many descriptor-less streams as fit: 125, 127, 128, 129 and 201 streams, and a fourth with one stream carrying 125..129, 254..258, 300 and ~496 tiny descriptors) x lead-in {pointer_field 0, pointer_field 100 with filler, foreign section first} x last-packet style (quick: one style per variant); the last stream's ES_info_length exceeds 255; per case: accessors, done predicate on every prefix, ExtractCRC, NewPMT, ReadPMT for every first-packet size 1..184 x second packet full/3 bytes with a foreign-PID packet in every gap; non-trivial = each (case, first size, second size)",
+				Rule: "case = section padded to an exact section_length in {150,180,181,184,400,1021} (thorough: 16 lengths around the one-, two- and three-packet limits up to the maximal 1021) x 2 content variants (plus a third with as many descriptor-less streams as fit: 125, 127, 128, 129 and 201 streams, and a fourth with one stream carrying 125..129, 254..258, 300 and ~496 tiny descriptors) x lead-in {pointer_field 0, pointer_field 100 with filler, foreign section first; for two lengths also a foreign section with section_length 1022 / 1023 and one / two empty sections (section_length 0) first} x last-packet style (quick: one style per variant); the last stream's ES_info_length exceeds 255; per case: accessors, done predicate on every prefix, ExtractCRC, NewPMT, ReadPMT for every first-packet size 1..184 x second packet full/3 bytes with a foreign-PID packet in every gap; non-trivial = each (case, first size, second size)",
 				Gen:  c06GenBig, Check: witnessEnum(c06CheckBig, witnessPSI), Batch: 1,
 			},
 			&engine.Enum[c06ReuseCase]{
